@@ -30,7 +30,7 @@ def tolerated(case, i, impl, model):
 
 
 def gen_cases(rng, tier):
-    n_user = 60 if tier == "thorough" else 8
+    n_user = 60 if tier == "thorough" else 14
     n_pre = 12 if tier == "thorough" else 2
     per = 60 if tier == "thorough" else 40
     cases = []
